@@ -42,6 +42,8 @@ ASSUMPTIONS = [
     "and their Case truth values/types/paths, HierarchyList.parents (ids renumbered by first appearance), whether "
     "any case was ever registered, and the reference automaton's stack all agree; accepted node names are excluded "
     "because every node line has a name unique to its position, so no later line can address an earlier node",
+    "the parser object is created as DIP(source=(name, line)) with that source registered by hand, exactly as the "
+    "library does for nested files; this only avoids the call-stack inspection used for source names",
     "unit tables are not touched by these programs (integers without units); a cheap size test after every case "
     "and a full comparison after every shard restore them if that is ever wrong",
 ]
@@ -86,7 +88,11 @@ def _cheap_isolation():
 
 
 def _parse(text):
-    with _DIP() as p:
+    # Constructed the way the library constructs its own nested parsers (nodes/node_source.py: DIP(source=...)):
+    # with an explicit source the constructor and add_string() skip inspect.stack(), which otherwise takes 80% of
+    # the run time and grows with the depth of the caller's stack.  Only source bookkeeping differs.
+    with _DIP(source=("verif", 1)) as p:
+        p.env.sources.append(name="verif", path="/dev/shm", code=None)
         p.add_string(text)
         env = p.parse()
     return env
@@ -169,6 +175,8 @@ def _behaviour_tree(exp, got, effective_values=()):
 def _check_tree(prog, gorder, sh=None):
     """returns (walk, failure-record or None); raises G.Invalid when the AST is outside the alphabet"""
     w = G.Walk(prog, gorder)
+    if not w.cross_check():
+        raise HarnessError("the two reference readings (AST interpreter / indentation automaton) disagree on %r" % (prog,))
     text = G.text_of(w.lines)
     got = _run_tree(text)
     exp = (w.data, sorted(w.tagged))
